@@ -50,6 +50,51 @@ def gen_signal_program(rng: random.Random) -> dict:
     return {"program": [{"name": "g0", "nodes": nodes, "bound": []}], "values": values, "async_only": async_only}
 
 
+def gen_fed_producer(rng: random.Random) -> dict:
+    """A producer that runs twice in a plain DAG (first on a parameter default, again when a longer branch delivers that parameter)
+    and a node that waits for the producer's DATA output and becomes ready around the producer's second run."""
+    L = rng.randint(1, 3)
+    nodes: list[dict] = []
+    prev = "x"
+    mids = []
+    for j in range(L):
+        out = "y" if j == L - 1 else f"m{j}"
+        nodes.append({"name": f"c{j}", "kind": "fn", "params": [[prev, None]], "dataOuts": [out], "body": {"b": "sum", "k": 1}})
+        mids.append(out)
+        prev = out
+    nodes.append({"name": "prod", "kind": "fn", "params": [["x", None], ["y", {"d": 0}]], "dataOuts": ["p"], "body": {"b": "sum", "k": 0}})
+    if rng.random() < 0.5:
+        # the waiter reads y under the same default: ready early, stale again exactly when the producer is
+        wparams = [["y", {"d": 0}]]
+    else:
+        # the waiter reads the end of a sibling chain of random length
+        prev = "x"
+        for j in range(rng.randint(max(1, L - 1), L + 1)):
+            nodes.append({"name": f"d{j}", "kind": "fn", "params": [[prev, None]], "dataOuts": [f"z{j}"], "body": {"b": "sum", "k": 1}})
+            prev = f"z{j}"
+        wparams = [[prev, None]]
+    waiter = {"name": "waiter", "kind": "fn", "params": wparams, "dataOuts": ["w"], "body": {"b": "tag", "t": "w"}, "waitFor": ["p"]}
+    nodes.append(waiter)
+    if rng.random() < 0.5:
+        nodes.append({"name": "w2", "kind": "fn", "params": [["w", None]], "dataOuts": ["w2o"], "body": {"b": "tag", "t": "w2"}, "waitFor": ["y"]})
+    rng.shuffle(nodes)
+    return {"program": [{"name": "g0", "nodes": nodes, "bound": []}], "values": [["x", rng.randint(0, 3)]]}
+
+
+def add_multi_wait(rng: random.Random, c: dict) -> dict:
+    """Signal loop + a node waiting for TWO names produced at different rates (one per iteration, one once)."""
+    c = copy.deepcopy(c)
+    nodes = c["program"][-1]["nodes"]
+    nodes.append({"name": "setup", "kind": "fn", "params": [["seed", None]], "dataOuts": [], "body": {"b": "tag", "t": "setup"}, "emits": ["setup_done"]})
+    wf = ["turn_done", "setup_done"]
+    rng.shuffle(wf)
+    nodes.append({"name": "report", "kind": "fn", "params": [["x", None]], "dataOuts": ["rep"], "body": {"b": "tag", "t": "report"}, "waitFor": wf})
+    c["values"] = c["values"] + [["seed", 1]]
+    if rng.random() < 0.5:
+        rng.shuffle(nodes)
+    return c
+
+
 class C17(RunProp):
     id = "C17"
     level = "proof"
@@ -63,14 +108,20 @@ class C17(RunProp):
 
     def cases(self, rng: random.Random, tier: str) -> Iterable[dict]:
         while True:
-            if rng.random() < 0.6:
+            r = rng.random()
+            if r < 0.45:
                 c = gen_signal_program(rng)
+                kind = "dag"
+            elif r < 0.6:
+                c = gen_fed_producer(rng)
                 kind = "dag"
             else:
                 c = gen.gen_loop(rng)
                 while c["loop"]["family"] != "signal":
                     c = gen.gen_loop(rng)
                 kind = "loop"
+                if rng.random() < 0.4:
+                    c = add_multi_wait(rng, c)
             runners = ["async"] if c.get("async_only") else ["sync", "async"]
             for runner in runners:
                 yield {"program": c["program"], "values": c["values"], "cfg": {}, "runner": runner, "kind": kind, "loop": c.get("loop"),
